@@ -83,9 +83,8 @@ namespace RecInt
     // a = b^(-1) mod a.p or a = 0 if b not invertible
     template <size_t K, typename T>
     inline __RECINT_IS_ARITH(T, rmint<K, MGA>& ) inv(rmint<K, MGA>& a, const T& b) {
-        ruint<K> br(b);
-        inv_mod(a.Value, br, a.p);
-        return to_mg(a);
+        rmint<K, MGA> br(b);
+        return inv(a, br);
     }
 }
 
